@@ -196,6 +196,9 @@ def classify(schema, X, what):
         return None
     if what == "refuses-legal" and len(X) == 1:
         return "single-part-refused"
+    subs = G.subs_of(schema)
+    if what == "accepts-illegal" and any(e["abstract"] and not subs[e["name"]] and e["name"] in X for e in schema):
+        return "abstract-without-subtypes:accepts-illegal"
     if ms and what == "accepts-illegal":
         return "several-supertypes:accepts-illegal"
     if ms and what == "refuses-legal":
@@ -511,6 +514,12 @@ def run(ctx):
         schemas.append(s); labels.append("corpus:" + nm)
     for nm, s in FIXED:
         schemas.append(s); labels.append("fixed:" + nm)
+    # an ABSTRACT entity that has no subtype at all (never instantiable): exp2cxx ignores ABSTRACT there and the matcher
+    # accepts it.  The shape is exercised once the finding is listed (it must then reproduce as that known finding).
+    from vlib import findings as F
+    if F.lookup("C08", "abstract-without-subtypes:accepts-illegal"):
+        schemas.append([E("a", expr=("oneof", [ent("b"), ent("c")])), E("b", ["a"]), E("c", ["a"], abstract=True)])
+        labels.append("fixed:abstract-leaf")
     nrand, maxn, norders = (10, 6, 2) if quick else (1200, 8, 3)
     shapes = ["tree", "diamond", "tworoots", "free"]
     for i in range(nrand):
